@@ -14,6 +14,7 @@
 #
 
 
+import re
 from collections import OrderedDict
 import unified_planning as up
 import networkx as nx
@@ -1051,11 +1052,9 @@ class ANMLReader:
 
 
 def is_float(string: str) -> bool:
-    try:
-        float(string)
-        return True
-    except ValueError:
-        return False
+    # a real literal of the ANML grammar is digits "." digits; float() would also accept
+    # the identifiers nan, inf and infinity (in any case), which are legal ANML names
+    return re.fullmatch(r"[0-9]+\.[0-9]+", string) is not None
 
 
 def find_strings(result: Union[ParseResults, List], strings: Set[str]) -> Set[str]:
